@@ -22,11 +22,12 @@ from .. import tlc
 from ..core import pool_map
 
 MODULE = "mimo/Mimo.tla"
-INVARIANTS = ["RoundTrip", "ScalesCancel", "EnergyPreserved", "ChannelUses", "AlamoutiOrthogonal", "ZfDefining",
+INVARIANTS = ["RoundTrip", "FilterFresh", "MmseBound", "ScalesCancel", "EnergyPreserved", "ChannelUses", "AlamoutiOrthogonal", "ZfDefining",
               "MmseDefining", "MmseTendsToZf", "MrtCophased", "SinrFirstPrinciples", "ZfSinrClosedForm",
               "BadLengthRaises"]
-ACTIONS = ["SetChannel", "Encode", "Transmit", "Decode", "Filters", "EncodeBadLength"]
-DEVS = ["SvdNeedsSquare", "SinrCoherentInterference"]
+ACTIONS = ["SetChannel", "Encode", "Transmit", "SetNoiseVar", "Decode", "Filters", "EncodeBadLength"]
+DEVS = ["SvdNeedsSquare", "SinrCoherentInterference", "NvNoneKeepsFilter"]
+VANISH = [2, 4, 6, 8, 10, 12, 14, 16]      # noise variances 10^-e along which MMSE -> ZF is followed
 ALL = ["blast", "mrc", "mrt", "svd", "gmd", "alamouti"]
 
 # alphabets.  ALPHA keeps |h|^2 <= 2 so that every fraction-free intermediate of a 3x3 MMSE filter
@@ -41,15 +42,20 @@ RTOL_REL = 1e-8
 
 SHAPES_Q = [(1, 1), (2, 1), (3, 1), (1, 2), (2, 2), (3, 2), (1, 3), (3, 3)]
 SHAPES_T = SHAPES_Q + [(4, 1), (4, 2), (1, 4), (4, 3)]
+# large channels: SVDMimo / GMDMimo only (relation-only); Blast is limited to Nt <= 3 by ShapeOK
+BIG_Q = [(4, 4), (5, 5), (6, 6), (7, 5), (8, 6)]
+BIG_T = BIG_Q + [(6, 4), (7, 7), (8, 8), (8, 5)]
 
 
-def build(schemes, shapes, klo, khi, seed, ndata, qs, decqs, alpha=ALPHA, pyth=PYTH, dev=(), emit=True):
+def build(schemes, shapes, klo, khi, seed, ndata, qs, decqs, alpha=ALPHA, pyth=PYTH, dev=(), emit=True,
+          hist_every=12, hist_deep=4):
     defs = {"Schemes": tlc.tla(set(schemes)),
             "Shapes": "{" + ", ".join(tlc.tla(list(s)) for s in shapes) + "}",
             "Alpha": tlc.tla(alpha), "Pyth": tlc.tla(pyth), "Syms": tlc.tla(SYMS),
-            "Qs": tlc.tla(qs), "DecQs": tlc.tla(decqs),
+            "Qs": tlc.tla(qs), "DecQs": tlc.tla([sorted(d) for d in decqs]), "Vanish": tlc.tla(VANISH),
             "Dev": tlc.tla({d: (d in dev) for d in DEVS})}
-    cfg = tlc.cfg_text(constants={"KLo": str(klo), "KHi": str(khi), "Seed": str(seed % 65536), "NData": str(ndata)},
+    cfg = tlc.cfg_text(constants={"KLo": str(klo), "KHi": str(khi), "Seed": str(seed % 65536), "NData": str(ndata),
+                                  "HistEvery": str(hist_every), "HistDeep": str(hist_deep)},
                        defs=defs, invariants=INVARIANTS, action_constraints=["Emit"] if emit else [])
     return cfg, defs
 
@@ -169,6 +175,33 @@ class Bench:
         out["hist"] = hist
         return o, H
 
+    def link_obj(self, rec, out):
+        """object for a link case, in the state of a new object (noise setting = default): built by the
+        constructor, by set_channel_matrix on an empty object, or by set_channel_matrix on an object that has
+        already decoded over the previous channel of that scheme (a filter kept from then would be stale)"""
+        cls, _ = classes()
+        sch = rec["sch"]
+        arg, H = chan_arg(rec)
+        mode = rec["k"] % 3
+        prev = self.prev.get(sch)
+        out["hist"] = None
+        if mode == 0 or (mode == 2 and prev is None):
+            o = cls[sch](arg)
+        elif mode == 1:
+            o = cls[sch]()
+            o.set_channel_matrix(arg)
+        else:
+            parg, pH = chan_arg(prev)
+            o = cls[sch](parg)
+            try:
+                o.decode(np.zeros((pH.shape[0], 2), dtype=complex))
+            except Exception:  # noqa  (judged by the case of that channel, not here)
+                pass
+            o.set_channel_matrix(arg)
+            out["hist"] = prev
+        self.prev[sch] = {"H": rec["H"], "form": rec["form"], "sch": sch, "k": rec["k"], "q": 0}
+        return o, H
+
     def preload(self, hist):
         """re-create the history of a stored failing case"""
         if not hist:
@@ -213,9 +246,11 @@ def call(res, what, f, *a):
 
 
 def eval_link(rec, bench, res):
-    sch, nr, nt, q = rec["sch"], rec["nr"], rec["nt"], rec["q"]
-    tag = f"{sch} {nr}x{nt} k={rec['k']} q={q}"
-    okc, r = call(res, "configure", bench.obj, rec, q, res.extra)
+    """one channel, one data block, one receiver history on ONE object"""
+    sch, nr, nt = rec["sch"], rec["nr"], rec["nt"]
+    steps = rec["steps"]
+    tag = f"{sch} {nr}x{nt} k={rec['k']} history={[st['a'] for st in steps]}"
+    okc, r = call(res, "configure", bench.link_obj, rec, res.extra)
     if not okc:
         return res.bad(f"{tag}: constructing / configuring the object raised {res.extra['exception']}")
     o, H = r
@@ -240,25 +275,38 @@ def eval_link(rec, bench, res):
     if not rel:
         res.check(close(enc, signal(rec["tx"])), f"{tag}: encode(x) differs from the exact transmitted signal")
     rx_real = H.dot(enc)
-    okc, dec = call(res, "decode", o.decode, rx_real.copy())
-    if not okc:
-        fid = None
-        if sch == "svd" and nr > nt and isinstance(dec, ValueError):
-            fid = "SvdNeedsSquare"
-        return res.bad(f"{tag}: decode raised {res.extra['exception']}", fid)
-    dec = np.asarray(dec)
-    want = np.array([gc(g) for g in rec["out"]["v"]], dtype=complex)
-    if rel:
-        res.check(dec.shape == want.shape and close(dec, want, RTOL_REL),
-                  f"{tag}: DecodeEqualsData fails: decode(H encode(x)) differs from x by "
-                  f"{np.abs(dec.reshape(-1)[:len(want)] - want).max() if dec.size == want.size else 'shape ' + str(dec.shape)}")
-    else:
-        what = "x" if q == 0 else "the exact MMSE estimate"
-        res.check(close(dec, want), f"{tag}: decode(H encode(x)) differs from {what}")
-        okc, dec2 = call(res, "decode", o.decode, signal(rec["rx"]))
+    want = {d["q"]: np.array([gc(g) for g in d["out"]["v"]], dtype=complex) for d in rec["decs"]}
+    first = True
+    for i, st in enumerate(steps):
+        a = st["a"]
+        if a != -2:          # set_noise_var(None | 0.0 | 1/a)
+            arg = None if a == -1 else (0.0 if a == 0 else 1.0 / a)
+            okc, e = call(res, "set_noise_var", o.set_noise_var, arg)
+            if not okc:
+                return res.bad(f"{tag}: step {i}: set_noise_var({arg}) raised {res.extra['exception']}")
+            continue
+        q = st["q"]
+        okc, dec = call(res, "decode", o.decode, rx_real.copy())
         if not okc:
-            return res.bad(f"{tag}: decode of the exact received signal raised {res.extra['exception']}")
-        res.check(close(np.asarray(dec2), want), f"{tag}: decode(exact received signal) differs from {what}")
+            fid = "SvdNeedsSquare" if (sch == "svd" and nr > nt and isinstance(dec, ValueError)) else None
+            return res.bad(f"{tag}: step {i}: decode raised {res.extra['exception']}", fid)
+        dec = np.asarray(dec)
+        w = want[q]
+        if rel:
+            if not res.check(dec.shape == w.shape and close(dec, w, RTOL_REL),
+                             f"{tag}: step {i}: DecodeEqualsData fails: decode(H encode(x)) differs from x by "
+                             f"{np.abs(dec.reshape(-1) - w).max() if dec.size == w.size else 'shape ' + str(dec.shape)}"):
+                return
+        else:
+            what = "x (zero forcing)" if q == 0 else f"the exact MMSE estimate (sigma^2=1/{q})"
+            if not res.check(close(dec, w), f"{tag}: step {i}: decode(H encode(x)) differs from {what}"):
+                return
+            if first:
+                okc, dec2 = call(res, "decode", o.decode, signal(rec["rx"]))
+                if not okc:
+                    return res.bad(f"{tag}: decode of the exact received signal raised {res.extra['exception']}")
+                res.check(close(np.asarray(dec2), w), f"{tag}: decode(exact received signal) differs from {what}")
+        first = False
 
 
 def _mimo_static(mimo, name, owner="MimoBase"):
@@ -339,6 +387,28 @@ def eval_filters(rec, bench, res):
                 sinr_verdict(res, got, s_mm, s_coh, f"{tag}: {sch}.calc_linear_SINRs(1/{q})")
             else:
                 res.bad(f"{tag}: calc_linear_SINRs raised {res.extra['exception']}")
+        # "tends to": followed numerically down to sigma^2 = 1e-16 against the exact ZF filter, with the bound
+        # ||MMSE(s) - ZF||_F <= s ||(H^H H)^-1||_F ||ZF||_F that TLC proved on the enumerated s (MmseBound)
+        cbound = math.sqrt(ratio(flt["ginv2"]) * ratio(flt["zf2"]))
+        floor = TOL * max(1.0, float(np.linalg.norm(zf)))
+        for e in flt["vanish"]:
+            nv = 10.0 ** (-e)
+            o.set_noise_var(nv)
+            okc, d = call(res, "decode", o.decode, np.eye(nr, dtype=complex))
+            if not okc:
+                res.bad(f"{tag}: decode(I) with noise variance 1e-{e} raised {res.extra['exception']}")
+                break
+            gap = float(np.linalg.norm(np.asarray(d).reshape((nt, nr), order="F") / rt - zf))
+            if not res.check(gap <= nv * cbound + floor,
+                             f"{tag}: MmseWithinBoundOfZf fails: ||MMSE(1e-{e}) - ZF||_F = {gap:.3e} exceeds "
+                             f"sigma^2 ||(H^H H)^-1|| ||ZF|| = {nv * cbound:.3e} (the MMSE filter does not tend to the ZF filter)"):
+                break
+            if f_mm is not None:
+                gap = float(np.linalg.norm(np.asarray(f_mm(H.copy(), nv)) - zf))
+                if not res.check(gap <= nv * cbound + floor,
+                                 f"{tag}: MmseWithinBoundOfZf fails for _calcMMSEFilter(H, 1e-{e}): distance to ZF {gap:.3e}, "
+                                 f"bound {nv * cbound:.3e}"):
+                    break
         if f_rf is not None:
             res.check(close(f_rf(H.copy(), 0.0), rt * zf) and close(f_rf(H.copy(), None), rt * zf),
                       f"{tag}: _calc_receive_filter(H, 0 / None) differs from sqrt(Nt) ZF")
@@ -439,7 +509,7 @@ def eval_chunk(recs):
 
 
 def case_key(rec):
-    return (rec["op"], rec["sch"], repr(rec["H"]), repr(rec.get("x")), rec.get("q", -1))
+    return (rec["op"], rec["sch"], repr(rec["H"]), repr(rec.get("x")), repr([st["a"] for st in rec.get("steps", [])]))
 
 
 # ------------------------------------------------------------------------------- the check
@@ -453,16 +523,16 @@ def plan(ctx):
         dq = [{4}] * 4
         step = nch // parts
         for p in range(parts):
-            jobs.append((f"all/k{p}", dict(schemes=ALL, shapes=SHAPES_Q, klo=p * step + 1, khi=(p + 1) * step, seed=seed,
-                                           ndata=ndata, qs=qs, decqs=dq)))
+            jobs.append((f"all/k{p}", dict(schemes=ALL, shapes=SHAPES_Q + BIG_Q, klo=p * step + 1, khi=(p + 1) * step, seed=seed,
+                                           ndata=ndata, qs=qs, decqs=dq, hist_every=12, hist_deep=4)))
     else:
         nch, parts, ndata = 700, 14, 3
         qs = [[1, 4, 16, 64], [1, 4, 16, 64], [1, 4, 16], [1, 4, 16, 64]]
         dq = [{1, 64}, {1, 64}, {1, 16}, {1}]
         step = nch // parts
         for p in range(parts):
-            jobs.append((f"all/k{p}", dict(schemes=ALL, shapes=SHAPES_T, klo=p * step + 1, khi=(p + 1) * step, seed=seed,
-                                           ndata=ndata, qs=qs, decqs=dq)))
+            jobs.append((f"all/k{p}", dict(schemes=ALL, shapes=SHAPES_T + BIG_T, klo=p * step + 1, khi=(p + 1) * step, seed=seed,
+                                           ndata=ndata, qs=qs, decqs=dq, hist_every=10, hist_deep=4)))
         # larger entries (|h|^2 <= 5) where the arithmetic stays inside 32 bits: Nt <= 2
         sh2 = [s for s in SHAPES_T if s[1] <= 2]
         qs2 = [[1, 4, 16]] * 4
@@ -475,16 +545,19 @@ def plan(ctx):
 def model_stage(ctx):
     """coverage of the actions on a small instance + refutation of each named deviation"""
     qs = [[1, 4, 16]] * 4
-    cfg, defs = build(ALL, [(1, 1), (1, 2), (2, 1), (2, 2), (3, 2)], 1, 2, ctx.seed, 1, qs, [{4}] * 4, emit=False)
+    cfg, defs = build(ALL, [(1, 1), (1, 2), (2, 1), (2, 2), (3, 2), (5, 5)], 1, 2, ctx.seed, 1, qs, [{4}] * 4, emit=False,
+                      hist_every=2, hist_deep=3)
     r = tlc_run(cfg, defs, coverage=True)
     ctx.account(r, MODULE, "intended/coverage")
     ctx.require_actions(ACTIONS)
-    want = {"SvdNeedsSquare": ("RoundTrip", ["svd"], [(2, 2), (3, 2)]),
-            "SinrCoherentInterference": ("SinrFirstPrinciples", ["blast"], [(2, 2), (3, 3)])}
+    want = {"SvdNeedsSquare": (("RoundTrip",), ["svd"], [(2, 2), (3, 2)]),
+            "SinrCoherentInterference": (("SinrFirstPrinciples",), ["blast"], [(2, 2), (3, 3)]),
+            # needs the history  set_noise_var(1/q), decode, set_noise_var(None), decode  on one object
+            "NvNoneKeepsFilter": (("RoundTrip", "FilterFresh"), ["blast", "mrc"], [(2, 1), (2, 2)])}
     for dev, (inv, schemes, shapes) in want.items():
-        cfg, defs = build(schemes, shapes, 1, 6, ctx.seed, 1, qs, [{4}] * 4, dev=[dev], emit=False)
+        cfg, defs = build(schemes, shapes, 1, 3, ctx.seed, 1, qs, [{4}] * 4, dev=[dev], emit=False, hist_every=1, hist_deep=4)
         r = tlc_run(cfg, defs)
-        if r.violated != inv:
+        if r.violated not in inv:
             raise tlc.TlcError(f"deviation {dev} is not refuted by {inv} of Mimo.tla (TLC reported {r.violated})")
         ctx.notes.setdefault("deviations_refuted_by_model", {})[dev] = r.violated
 
